@@ -1162,7 +1162,7 @@ def edit_in_place(obj, H):
 
 class C18(Check):
     pid = "C18"
-    props_modules = ["Verif.C18.Props", "Verif.C18.PropsApi", "Verif.C18.Translated"]
+    props_modules = ["Verif.C18.Props", "Verif.C18.PropsApi", "Verif.C18.PropsSpec", "Verif.C18.Translated"]
     quick_cases = 2600
     thorough_cases = 40000
     rule = ("(round 6: plus the same call with INFO logging and its per-pair log, generators/positional/keyword call "
@@ -1431,6 +1431,10 @@ class C18(Check):
                "score": run_compute(case["golds"], case["tests"], w, case["ig"], case["it"])}
         out["score_info"], out["trace"] = run_info(case["golds"], case["tests"], w, case["ig"], case["it"])
         out["cli"] = run_cli_exact(case, self.tmp) if case.get("cli") else None
+        # the driver also evaluates the declarative triple collections (Spec.lean): inside the input space
+        # (distinct ids, link starts are nodes) the real totals must equal them
+        structs_ok = (all(wellformed(g) for g in case["golds"]) and all(wellformed(t) for t in case["tests"]))
+        out["spec_totals"] = out["totals"] if structs_ok else None
         return out
 
     def model_request(self, case):
@@ -1444,6 +1448,9 @@ class C18(Check):
         if isinstance(expected, dict) and expected.get("totals") is None and isinstance(answer, dict):
             answer = dict(answer)
             answer["totals"] = None          # edm._accumulate not observable: compare the scores only
+        if isinstance(expected, dict) and expected.get("spec_totals") is None and isinstance(answer, dict):
+            answer = dict(answer)
+            answer["spec_totals"] = None     # outside the input space the declarative collections do not apply
         return super().model_compare(case, expected, answer)
 
     # ---- direct oracle
